@@ -13,7 +13,8 @@ returns:
                     store into the receiver (`self.x op= ..`, `self._x = ..`, `self._mat_mul(..)`, `m._vec_rot(self)`,
                     `m._to_angle(self)`);
   PNotImplemented   `return NotImplemented` (Python then falls back to the pure operator);
-  POther            anything else - a new object, another name, falling off the end.
+  POther            anything else - a new object, another name, falling off the end, NotImplemented AFTER a store into the
+                    receiver (Python would then apply the pure operator to the half-updated object).
 The Coq side (Rot/RotInplace.v) accepts the census when every method belongs to a mutable class only (is not reachable from a
 frozen class through the MRO), and every path that returns a value returns the receiver after at least one store.  The check
 compares the census with `vars()` of the running classes.
@@ -209,6 +210,9 @@ def classify_path(C: tr.Classes, fn: ast.FunctionDef, stmts: list[ast.stmt]) -> 
         return 'POther', 0, 'falls off the end / returns None'
     v = stmts[-1].value
     if isinstance(v, ast.Name) and v.id == 'NotImplemented':
+        if stores:
+            # Python would now apply the pure operator to the half-updated receiver
+            return 'POther', 0, f'returns NotImplemented after {stores} store(s) into the receiver'
         return 'PNotImplemented', 0, ''
     if rebound:
         return 'POther', 0, f'the receiver name `{me}` is rebound'
